@@ -29,7 +29,7 @@ Scope notes.
 * EXCLUDED on the literal side: the value check of `p.decimal(&v)` in the multiplier branch
   ("number cannot be represented as int", e.g. `1.0005K`): a check on the VALUE, not on the
   spelling.  Since /repo 1674508 `p.decimal` also reports apd's parse error of `p.buf`; in
-  `ParseNum` this can only happen for a mantissa without digits, see `negZeroMul` (signed
+  `ParseNum` this can only happen for the mantissa "-.", see `negZeroMul` (`-0.K`; signed
   spellings only).  An exponent beyond apd's range (`1e100001`) is NOT rejected by `ParseNum`
   (no multiplier → `p.decimal` is not called); it is rejected later by `NumInfo.Decimal`.
 * The `p.buf` side effects of the literal parser are not modelled: `p.buf` (and the
@@ -341,19 +341,17 @@ def parseNumFrom (cur : Str) (err : Bool) : Option Kind :=
     else if fin.length > 1 then none      -- n.p < len(n.src)
     else some (kindOf isFloat)
 
-/-- After a '-' sign: a lone "0", optionally ".", then a multiplier.  In the multiplier branch
-`scanNumber` hands `p.buf` to apd (`p.decimal`); since /repo 1674508 apd's parse error is
-reported, and 726bce5 re-adds the skipped "0" only when `p.buf` is EMPTY — which it is not
-after `ParseNum` appended the '-' — so the mantissa "-" / "-." has no digit and
-`-0K`, `-0.K`, `-0Ki` are rejected ("invalid number: parse mantissa") while `0K`, `+0K` and
-`-0.0K` are accepted.  This is the only way `p.buf` influences acceptance; every other shape of
+/-- After a '-' sign: "0." directly followed by a multiplier.  In the multiplier branch
+`scanNumber` hands `p.buf` to apd (`p.decimal`), whose parse error is reported since /repo
+1674508.  The skipped lone zero is re-added when `p.buf` is empty or just "-" (726bce5,
+9d21395), so `0K`, `+0K`, `-0K`, `-0Ki` are accepted; but for `-0.K` / `-0.Ki` the '.' was
+appended by `next()` to the non-empty buffer "-" without a leading zero, the mantissa is "-."
+and apd rejects it ("invalid number: parse mantissa"), while `0.K`, `+0.K`, `-0.0K`, `-.5K`
+are accepted.  This is the only way `p.buf` influences acceptance; every other shape of
 `p.buf` in that branch contains a digit and parses. -/
 def negZeroMul (cs : Str) : Bool :=
   match cs with
-  | 48 :: r =>
-    let r' := match r with
-      | 46 :: t => t
-      | _ => r
+  | 48 :: 46 :: r' =>
     match r' with
     | [m] => isMul m
     | [m, 105] => isMul m
